@@ -469,7 +469,32 @@ func c20(c *Ctx) {
 					}
 				}
 			}
-			if !isRecovery && !recoveryBranch {
+			// a mailbox handed in by the caller may be the recovery mailbox as well (EXPUNGE / CLOSE work on whatever is selected)
+			fromParam := false
+			{
+				v := mbox
+				for i := 0; i < 8 && !fromParam; i++ {
+					switch t := v.(type) {
+					case *ssa.Field:
+						v = t.X
+					case *ssa.FieldAddr:
+						v = t.X
+					case *ssa.UnOp:
+						v = t.X
+					case *ssa.Alloc:
+						if sts := engine.StoresTo(t); len(sts) == 1 {
+							v = sts[0].Val
+						} else {
+							i = 8
+						}
+					case *ssa.Parameter:
+						fromParam = true
+					default:
+						i = 8
+					}
+				}
+			}
+			if !isRecovery && !recoveryBranch && !fromParam {
 				continue
 			}
 			pairs++
